@@ -409,7 +409,11 @@ def State.bcast (s : State) (h : Nat) (viaWallet : Bool) : State × Bool :=
   match s.reg.find? (·.h == h) with
   | none => (s, false)
   | some t =>
-    if s.accepts t.v2 (t.ins.map (·.id)) then
+    if t.base != 0 && (s.poolV1 ++ s.poolV2).contains (t.toP t.base) then
+      -- the pool knows the transaction already: nothing is added, no error; the wallet
+      -- (`BroadcastV2TransactionSet` :828-840) stores the set all the same
+      (if viaWallet then { s with bsets := s.bsets ++ [(⟨false, s.txnSet (t.toP t.base)⟩ : BSet)] } else s, true)
+    else if s.accepts t.v2 (t.ins.map (·.id)) then
       -- the outputs keep the ids they got when the transaction was first submitted
       let base := if t.base = 0 then s.nextId else t.base
       let p := t.toP base
